@@ -1,6 +1,7 @@
 (* C12 -- lazy iterators yield exactly the members of the container, then stop. Statements only. *)
 From Coq Require Import List Bool Arith NArith.
 From SonicV Require Import Model.Latch Model.SkipAll Model.Skip Spec.Ref Model.IterSound Model.IterObjSound.
+From SonicV Require Model.IterComplete.
 Import ListNotations.
 
 (* after yielding an error or the end an iterator yields nothing more, for every poll sequence *)
@@ -24,3 +25,13 @@ Theorem reference_object_items_located : forall l k a b, In (IOk k a b) (ref_obj
 Proof. exact object_iterator_items_located. Qed.
 Theorem reference_object_transcript_shape : forall l, shape (ref_object_iter l) = true.
 Proof. exact object_iterator_shape. Qed.
+
+(* ... and on a text the strict reference parser accepts as an array (object), the reference iterator
+   yields, in order, exactly one item per element (member) of the parsed tree, with that element's span
+   (and the member's decoded key), and then the end marker *)
+Theorem reference_array_iterator_yields_the_elements : forall l xs a b, utf8_valid l = true ->
+  ref_text true l = Some (Ref.JArr xs, a, b) -> ref_array_iter l = map IterComplete.arr_item xs ++ [IEnd].
+Proof. exact IterComplete.array_iterator_complete. Qed.
+Theorem reference_object_iterator_yields_the_members : forall l ms a b, utf8_valid l = true ->
+  ref_text true l = Some (Ref.JObj ms, a, b) -> ref_object_iter l = map IterComplete.obj_item ms ++ [IEnd].
+Proof. exact IterComplete.object_iterator_complete. Qed.
